@@ -47,4 +47,27 @@ theorem ups_udp_buf_size_src : ups_udp_buf_size = "4096" := by decide
 theorem ups_tcp_buf_size_src : ups_tcp_buf_size = "dns.MaxMsgSize" := by decide
 theorem ups_read_valid_args_src : ups_read_valid_args = "network, conn, buf" := by decide
 
+/-! Pool discipline (`Sys.accept` / `Sys.serve`): the buffer is `Put` back only on the error path of
+the read and, in the worker closure, after the call that decodes it. -/
+theorem udp_pool_order_src :
+    udp_pool_order = "udpPool.Get,readUDPMsg,udpPool.Put,Submit,serveUDPPacket,udpPool.Put" := by decide
+theorem tcp_pool_order_src : tcp_pool_order = "readTCPMsg,Submit,serveTCPMessage,tcpPool.Put" := by decide
+theorem tcp_read_pool_order_src : tcp_read_pool_order = "getTCPBuffer,ReadFull,tcpPool.Put" := by decide
+theorem doq_pool_order_src : doq_pool_order = "reqPool.Get,reqPool.Put,readAll,Unpack" := by decide
+theorem ups_pool_order_src : ups_pool_order = "getBuffer,putBuffer,packReq,processConn,processConn" := by decide
+theorem doq_readall_read_arg_src : doq_readall_read_arg = "buf[n:]" := by decide
+
+/-! Response side (`packUDP`, `packWithPrefix`): what is packed into and what is written. -/
+theorem udp_resp_pack_arg_src : udp_resp_pack_arg = "*bufPtr" := by decide
+theorem udp_resp_write_args_src : udp_resp_write_args = "r.conn, b, r.udpSession" := by decide
+theorem tcp_resp_pack_args_src : tcp_resp_pack_args = "resp, *bufPtr" := by decide
+theorem tcp_resp_write_arg_src : tcp_resp_write_arg = "b" := by decide
+theorem doq_resp_write_arg_src : doq_resp_write_arg = "b" := by decide
+theorem pfx_grow_src : pfx_grow = "slices.Grow(buf, 2)[:l+2]" := by decide
+theorem pfx_copy_args_src : pfx_copy_args = "packed[2:], buf" := by decide
+theorem pfx_put_args_src : pfx_put_args = "packed[:2], uint16(l)" := by decide
+
+/-! DoH GET: the parameter is decoded into a fresh slice. -/
+theorem doh_get_decode_src : doh_get_decode = "b64[0]" := by decide
+
 end Agd.Tie.C06
